@@ -7,7 +7,7 @@ ID = "C04"
 RULE = ("Base records (names from [A-Za-z0-9_.|-], sequence sets as in C01) are presented canonically (one FASTA file, one "
         "line per sequence) and re-presented by independent writers: records split in order over 1..4 files (including files with a single record and empty files), each file with "
         "its own format (FASTA / aligned FASTA / PileUp-style MSF / !!AA|NA MSF / Clustal W with conservation lines and "
-        "optional residue counts), line width 1..200, CRLF, trailing blanks, blank lines, leading blank lines, gap characters "
+        "optional residue counts), line width 1..200, CRLF, missing final line terminator, trailing blanks, blank lines, leading blank lines, gap characters "
         "('-', '.', '~') inserted at random or as an equal-length alignment up to 95 % gaps; library (repeated "
         "kalign_read_input) and CLI (stdin + -i + positionals). Oracle: rows by name and order identical to the canonical run "
         "with the same options. Non-trivial = presentation differs in >= 1 dimension and the result has gaps.")
@@ -25,6 +25,7 @@ def chunk_specs(draw, thorough):
     ch["gapmode"] = draw(st.sampled_from(["none", "random", "aligned"])) if fmt == "fasta" else "aligned"
     ch["gapfrac"] = draw(st.sampled_from([0.05, 0.3, 0.6, 0.85, 0.95]))
     ch["eol"] = draw(st.sampled_from(["\n", "\n", "\r\n"]))
+    ch["final_eol"] = draw(st.sampled_from([True, True, True, False]))
     if fmt == "fasta":
         ch["width"] = draw(st.sampled_from([0, 1, 7, 59, 60, 61, 80, 200]))
         ch["trail"] = draw(st.sampled_from(["", "", " ", "   "]))
@@ -106,6 +107,8 @@ def check(case):
                 cl.append("gapfrac>0.8")
         if ch["eol"] == "\r\n":
             cl.append("crlf")
+        if not ch.get("final_eol", True):
+            cl.append("no_final_newline")
         if ch["fmt"] == "fasta" and ch["width"] not in (0, 60):
             cl.append("wrap")
     cl = sorted(set(cl))
@@ -117,7 +120,10 @@ def check(case):
         if b - a == 0:
             files.append(wd.write(b"" if ch["seed"] % 2 else b"\n", ".empty"))
             continue
-        files.append(wd.write(present.render_chunk(names[a:b], seqs[a:b], ch).encode("latin-1"), "." + ch["fmt"]))
+        body = present.render_chunk(names[a:b], seqs[a:b], ch)
+        if not ch.get("final_eol", True):
+            body = body.rstrip("\r\n")           # last byte of the file is not a line terminator
+        files.append(wd.write(body.encode("latin-1"), "." + ch["fmt"]))
     try:
         if case["entry"] == "lib":
             r0 = kal.run_files([canon], cfg)
